@@ -166,6 +166,16 @@ def check_config(col, t, rng):
             A = np.vstack([x, y])[:, 8:]
             _, S = sd(A, A, dict(c, n=nn))
             f = np.arange(S.shape[2]) * fs / c["nxseg"]
+            if c["method"] == "per":
+                # integrates over frequency to the mean square (40 segments of white noise: estimator scatter about 4 %,
+                # segment-mean removal at most 2 %; the allowance of 25 % separates every wrong density scaling)
+                for i in range(2):
+                    integ = float(np.real(S[i, i, :]).sum() * fs / c["nxseg"])
+                    ms = float(np.mean(A[i] ** 2))
+                    if not abs(integ - ms) <= 0.25 * ms:
+                        col.violation(f"{site}/integral_mean_square", f"{site}: the auto spectrum of channel {i} integrates to {integ:.4g}, "
+                                      f"the mean square of the record is {ms:.4g}; {c}", rep)
+                        return
             ratio = S[0, 1, :] / S[0, 0, :]
             exp = gain * np.exp(out["conj_sign"] * 2j * np.pi * f * d / fs)
             err = np.abs(ratio - exp)[2:-2] / abs(gain)
